@@ -50,7 +50,7 @@ def run(tier, seed):
     if not ck.proof['driver_ok']:
         return ck.finish(rule='driver unavailable')
     n = 120 if tier == 'quick' else 2500
-    scs = campaign.build(ck.rnd, 'core', n, 8, depth=2, all_match=True)
+    scs = campaign.build(ck.rnd, 'core', n, 8, depth=2, all_match=True, directed=3)
     scs += campaign.build(ck.rnd, 'core', n // 4, 4, depth=3, all_match=True)
     attrval.run(ck, ck.rnd, 300 if tier == 'quick' else 5000)
     recs = matchcheck.run_corr(ck, scs)
@@ -59,7 +59,7 @@ def run(tier, seed):
         level='proof',
         rule='trees: generic documents built through the bs4 API / html.parser / lxml / html5lib / lxml-xml, detached fragments, '
              'several top-level nodes; selectors: AST generator over the C01 grammar (depth 2-3) with names and values drawn '
-             'from the tree. Each case: implementation vs extracted Coq matcher (E1, every API entry point) and '
+             'from the tree, 3 of 8 per tree derived from a sibling / parent / ancestor relationship that occurs in it. Each case: implementation vs extracted Coq matcher (E1, every API entry point) and '
              'implementation vs independent reference semantics. class = (tree kind, selector features, op, outcome).',
         assumptions=['reference semantics harness/oracles/selspec.py is my reading of Selectors 3/4 + soupsieve docs for :root',
                      'case-insensitive comparison is judged on ASCII values only'])
